@@ -65,13 +65,18 @@ def pollute_other_objects(table, stream, data=None):
     (no module-level caches, class attributes or mutable default arguments)."""
     from .. import kernel
     tp = {r['t']: 424242 for r in stream}
+    if len(stream) % 2:
+        # that earlier user had its own code table: helper names missing, some ids under other names
+        table = {k: v for k, v in table.items() if not v.startswith(('PERF_STK', 'PERF_THD', 'DYLD_uuid', 'RealFault', 'VFS_', 'TRACE_STRING'))}
+        for r in stream[:4]:
+            table.setdefault(r['id'], 'MACH_MKRUNNABLE')
     ep = tool.tp_mod.TracesParser(table, tp, {424242: 'earlier'})
     cp = tool.cs_mod.CallstacksParser([], [])
 
     def gen():
         for r in stream:
             nm = table.get(r['id'], '')
-            if r['q'] == 1 or nm.startswith(('TRACE_DATA', 'DYLD_uuid', 'PERF_STK', 'PERF_THD')) or (r['q'] == 0 and '/c' in r['o']):
+            if r['q'] in (1, 2) or nm.startswith(('TRACE_DATA', 'DYLD_uuid', 'PERF_STK', 'PERF_THD')) or (r['q'] == 0 and '/c' in r['o']):
                 try:
                     t = ep.feed(tool.kevent(kernel.to_bytes(r)))
                 except Exception:
